@@ -18,8 +18,9 @@ void *vt_memset(void *d, int c, size_t n){
   return d;
 }
 void *vt_memmove(void *d, const void *s, size_t n){
-  if((const char*)d==(const char*)s || n==0) return d;
-  if((const char*)d<(const char*)s || (const char*)d>=(const char*)s+n){
+  if(n==0) return d;
+  /* direction from object identity and offsets (a relational comparison of pointers into different objects is expensive and unspecified) */
+  if(__CPROVER_POINTER_OBJECT(d)!=__CPROVER_POINTER_OBJECT(s) || __CPROVER_POINTER_OFFSET(d)<=__CPROVER_POINTER_OFFSET(s)){
     size_t off=0;
     while(off<n){ ((char*)d)[off]=((const char*)s)[off]; off++; }
   } else {
